@@ -138,6 +138,7 @@ class Check:
         self.violations = []     # list of (replay_path, suffix)
         self.known_seen = Counter()
         self.inconclusive = 0
+        self.model_timeouts = 0
         self.mod = importlib.import_module(modname)
 
     # -- reporting
@@ -195,6 +196,9 @@ class Check:
         n_compared = 0
         for (i, j), mo in zip(owner, mouts):
             exp = results[i]["model"][j]
+            if isinstance(mo, str) and mo == common.MODEL_TIMEOUT:
+                self.model_timeouts += 1
+                continue
             n_compared += 1
             post = getattr(mod, "model_post", None)
             mo2 = post(exp, mo) if post else mo
@@ -323,6 +327,7 @@ class Check:
                 "oracle_only_subclaims": getattr(mod, "ORACLE_ONLY", []),
                 "corpus_cases": stats.get("n_corpus", 0),
                 "inconclusive_replays": self.inconclusive,
+                "model_timeouts": self.model_timeouts,
             },
             "assumptions": getattr(mod, "ASSUMPTIONS", []),
             "wall_s": round(time.time() - self.t0, 2),
